@@ -188,7 +188,7 @@ PROPS = {
         "design_ref": "DESIGN.md §3.6, §3.21, §4 C12",
     },
     "C03": {
-        "rules": ["FRONTPIPE", "OBLIG", "BOUNDFORM", "FLOORENC", "OPTPRED", "FIELDS", "TYPEDISC", "CONDSPEC", "WINALIAS@bounds", "ALIASCLOSED", "WINCOMPOSE", "EXH", "TRAV@C03"],
+        "rules": ["FRONTPIPE", "OBLIG", "BOUNDFORM", "FLOORENC", "CFGUNIQ", "OPTPRED", "FIELDS", "TYPEDISC", "CONDSPEC", "WINALIAS@bounds", "ALIASCLOSED", "WINCOMPOSE", "EXH", "TRAV@C03"],
         "thorough": [],
         "technique": "static analysis: ordered must-call pipeline at definition time, per-statement-kind obligation table for the bounds checker, formula-shape patterns (0 <= i < dim, 0 < size, 0 <= hi-lo), alias-closure of bounds effects",
         "level_text": "Structural clauses: every parsed procedure passes TypeChecker -> CheckBounds -> Check_Aliasing unconditionally, on the same object, and recorded errors raise; "
